@@ -197,6 +197,44 @@ theorem no_leak_finish (s0 : QSys) (h : RStore.Consistent s0.store) (es : List Q
     RStore.Consistent ((s0.run es).finish [] fuel).1.store :=
   QSys.finish_consistent (QSys.run_consistent h es) [] fuel
 
+/-! ## the state the driver compares: after the completion phase -/
+
+/-- erasing the logs of the ghost completion phase gives the model's `QSys.finish` (start every client, then run the
+live ones round-robin), whatever the trace so far -/
+theorem ghost_faithful_finish (s0 : QSys) (es : List QSysEv) (tr : List String) (fuel : Nat) :
+    ((reach s0 es).finish fuel).sys = ((reach s0 es).sys.finish tr fuel).1 :=
+  GSys.finish_sys _ tr fuel
+
+/-- conservation, at-most-once, integrity, batch accounting and batch size also hold in the final state the driver
+compares (events, then `finish`) -/
+theorem conservation_final (s0 : QSys) (h0 : s0.Init) (es : List QSysEv) (fuel : Nat) :
+    (∀ id : Nat, id ∈ ((reach s0 es).finish fuel).enqs.map (·.id) ↔
+      (id ∈ ((reach s0 es).finish fuel).sys.store.pQueue ∨ id ∈ ((reach s0 es).finish fuel).pops.map (·.id))) ∧
+    (∀ id : Nat, id ∈ ((reach s0 es).finish fuel).pops.map (·.id) → id ∉ ((reach s0 es).finish fuel).sys.store.pQueue) ∧
+    (((reach s0 es).finish fuel).pops.map (·.id)).Nodup ∧
+    (∀ d ∈ ((reach s0 es).finish fuel).pops, ∃ e ∈ ((reach s0 es).finish fuel).enqs,
+      e.id = d.id ∧ e.probe = d.probe ∧ e.expires = d.expires ∧ d.ready = some e.ready) ∧
+    (∀ (i : Nat) (c : QClient), ((reach s0 es).finish fuel).sys.clients[i]? = some c →
+      c.popped = poppedOf i ((reach s0 es).finish fuel).pops ∧
+      (c.started = true → PcOK c.op c.pc (retOf i ((reach s0 es).finish fuel).pops) (expOf i ((reach s0 es).finish fuel).pops))) := by
+  have hG := ((GInv.init h0).run es).finish fuel
+  exact ⟨hG.cover, hG.popOut, hG.popNodup, hG.popSrc, fun i c hc => ⟨(hG.clients i c hc).popped, (hG.clients i c hc).pc⟩⟩
+
+/-- not-early / not-late in the final state the driver compares -/
+theorem timing_final (s0 : QSys) (h0 : s0.Init) (harr : ∀ c ∈ s0.clients, c.started = true → c.arrival ≤ s0.clock)
+    (es : List QSysEv) (hm : Monotone es) (fuel : Nat) (d : GPop) (hd : d ∈ ((reach s0 es).finish fuel).pops) :
+    (∃ r, d.ready = some r ∧ r ≤ d.clk) ∧
+    (d.returned = true → d.expires = none ∨ ∃ x, d.expires = some x ∧ d.clk ≤ x) := by
+  have hG := ((GInv.init h0).run es).finish fuel
+  have hT := GTInv.finish ((GInv.init h0).run es) (GTInv.run (GInv.init h0) (TInv.init h0 harr) es hm) fuel
+  obtain ⟨r, h5, h6, _⟩ := hT.popT d hd
+  refine ⟨⟨r, h5, h6⟩, ?_⟩
+  rw [hG.popRet d hd]
+  unfold expiredAt
+  cases d.expires with
+  | none => simp
+  | some x => simp
+
 /-! ## 7./8. batch order -/
 
 /-- the returned batch of consumer `i` is in ready-time order (stated on the pop records that make up the batch, see `batch_is_log`) -/
@@ -281,5 +319,29 @@ theorem batch_unsorted_witness :
   unfold SortedBatch
   rw [witness_pops]
   simp [List.filter]
+
+set_option maxRecDepth 100000 in
+/-- non-vacuity of the hypotheses of `batch_sorted_seq` / `batch_sorted_conc`: on the witness system, with the late producer
+left out of the schedule (`es1` = producer 0 runs, `es2` = the consumer runs), all hypotheses hold and the consumer returns `[wp1]` -/
+example :
+    SortedBatch (reach witness ([.run 0] ++ [.run 1])) 1 ∧
+    (((reach witness ([.run 0] ++ [.run 1])).sys.clients[1]?).map (·.pc)) = some (.done (.probes [wp1] 0)) := by
+  refine ⟨batch_sorted_seq witness witness_init [.run 0] [.run 1] 1 ?_ ?_ (by rfl), by rfl⟩
+  · have : (reach witness [.run 0]).pops = [] := by rfl
+    rw [this]; intro d hd; cases hd
+  · intro c got e ids hc hs
+    have : ((reach witness [.run 0]).sys.clients[1]?) = some { op := .popMany 2, pc := .start } := by rfl
+    rw [this] at hc
+    cases hc
+    cases hs
+
+set_option maxRecDepth 100000 in
+/-- the witness schedule violates exactly the side condition of `batch_sorted_conc`: the second enqueue executes at clock 100
+with ready time 10 -/
+example : ¬ (∀ (k : Nat) (e : GEnq), (reach witness [.run 0, .step 1]).enqs.length ≤ k →
+    (reach witness ([.run 0, .step 1] ++ [.run 2, .run 1])).enqs[k]? = some e → e.clk ≤ e.ready) := by
+  intro h
+  have := h 1 ⟨1, 2, wp2, none, 10, 100⟩ (by decide) (by rfl)
+  exact absurd this (by decide)
 
 end Swat4.C12
